@@ -14,7 +14,7 @@ KINDS = ["function", "wrapper", "type", "manifest", "element", "makeSeq"]
 SECTION_ORDER = ["function", "wrapper", "type", "manifest", "element", "makeSeq"]
 
 NASTY = [b"", b" ", b"a b", b"\n", b"x\ny", b'"q"', b"\xff", b"\x80\xfe", b"12", b"0 ", b"3 abc", b"/* c */",
-         b"\t", b"a\x00b"[:1], b"::", b"operator <<", b"na\xc3\xafve", b"\xff\xff\xff", b"-1", b"  lead", b"trail  "]
+         b"\t", b"a\x00b", b"\x00", b"tail\x00", b"\x00\x00 x", b"::", b"operator <<", b"na\xc3\xafve", b"\xff\xff\xff", b"-1", b"  lead", b"trail  "]
 
 
 class Layouts:
